@@ -65,19 +65,35 @@ def jobs(tier):
                        "cbmc": extra})
     # ---- algebraic simplification: the real of_peep.c:peepBCall preserves value ----
     PL = ["bigint.c", "of_util.c", "util.c:-Dbug=util_c_bug", "stdc.c:-D_do_assert=stdc_c_do_assert"]
-    for op in ("SIntPlus", "SIntMinus", "SIntTimes", "SIntEQ", "SIntNE", "SIntLT", "SIntLE"):
-        js.append({"name": "peep.binary." + op, "src": "peep_h.c", "entry": "h_peep_binary", "defs": ["-DPEEP_OP=FOAM_BVal_" + op],
-                   "functions": ["peepBCall", "peepBinaryBCall", "peepAdditiveOp", "peepTimesOp", "peepMakeUnaryOp", "peepMakeBinaryOp", "peepPositive", "peepFoamIsValue"],
+    PCONST = ["2L", "4L", "1024L", "(1L<<30)", "(1L<<31)", "(1L<<62)", "3L", "(-1L)", "(-2L)", "(-0x7fffffffffffffffL-1)"]
+    PFN = ["peepBCall", "peepBinaryBCall", "peepAdditiveOp", "peepTimesOp", "peepMakeUnaryOp", "peepMakeBinaryOp", "peepPositive", "peepFoamIsValue", "peepFoamIsPowerOf2"]
+
+    def P(name, entry, defs, fns, smt=False):
+        js.append({"name": name, "src": "peep_h.c", "entry": entry, "defs": defs, "functions": fns,
                    "inputs": ["x", "y", "c", "shape", "slow"], "native": True, "cls": "P",
                    "checks": ["--no-standard-checks", "--no-malloc-may-fail"],
-                   "cbmc": ["--object-bits", "14", "--unwind", "70", "--z3", "--slice-formula"], "timeout": 900, "link": PL,
-                   "assumed": ["leaves are side-effect-free local variables holding arbitrary words", "allocator stub"]})
-    js.append({"name": "peep.unary_and_boolean", "src": "peep_h.c", "entry": "h_peep_unary",
-               "functions": ["peepBCall", "peepNegate", "peepUnaryBCall", "peepMakeBinaryOp"],
-               "inputs": ["x", "y", "shape", "slow"], "native": True, "cls": "P",
-               "checks": ["--no-standard-checks", "--no-malloc-may-fail"],
-               "cbmc": ["--object-bits", "14", "--unwind", "70"], "timeout": 900, "link": PL,
-               "assumed": ["leaves are side-effect-free local variables", "allocator stub"]})
+                   "cbmc": ["--object-bits", "14", "--unwind", "70"] + (["--z3", "--slice-formula"] if smt else []),
+                   "timeout": 300 if tier != "thorough" else 3000, "link": PL,
+                   "assumed": ["leaves are side-effect-free local variables holding arbitrary words", "allocator stub",
+                               "operand shapes enumerated: x op 0/1, 0/1 op x, x op x, x op y, (-x) op y, x op (-y), x op c and c op x for c in a fixed list of constants"]})
+    for op in ("SIntPlus", "SIntMinus", "SIntTimes", "SIntEQ", "SIntNE", "SIntLT", "SIntLE"):
+        for slow in ((1, 0) if op in ("SIntMinus", "SIntLT", "SIntLE") else (1,)):
+            tn = "slowtbl" if slow else "fasttbl"
+            for shape in range(8):
+                P("peep.%s.%s.shape%d" % (op, tn, shape), "h_peep_binary",
+                  ["-DPEEP_OP=FOAM_BVal_" + op, "-DPEEP_SHAPE=%d" % shape, "-DPEEP_SLOW=%d" % slow], PFN)
+            if tier == "thorough" or slow:
+                for shape in (8, 9):
+                    for ci, cv in enumerate(PCONST):
+                        P("peep.%s.%s.shape%d.c%d" % (op, tn, shape, ci), "h_peep_binary",
+                          ["-DPEEP_OP=FOAM_BVal_" + op, "-DPEEP_SHAPE=%d" % shape, "-DPEEP_SLOW=%d" % slow, "-DPEEP_C=" + cv], PFN)
+    for op, shape in (("SIntMinus", 2), ("SIntLT", 1)):
+        P("canary.peep.%s.shape%d" % (op, shape), "h_peep_binary",
+          ["-DPEEP_OP=FOAM_BVal_" + op, "-DPEEP_SHAPE=%d" % shape, "-DPEEP_SLOW=1", "-DCANARY_peep"], PFN)
+        js[-1]["kind"] = "canary"
+    for shape in range(12):
+        P("peep.unary_boolean.shape%d" % shape, "h_peep_unary", ["-DPEEP_SHAPE=%d" % shape, "-DPEEP_SLOW=1"],
+          ["peepBCall", "peepNegate", "peepUnaryBCall", "peepMakeBinaryOp"])
     SPLICE = {"fint.c": {"_rename_def": {"fintEval": "fintEval__real"}}}
     NOCHK = ["--no-standard-checks", "--no-malloc-may-fail"]
     for n in list(gen.CANARY) + list(gen.CANARY_RT):
